@@ -12,7 +12,7 @@ from . import explore, semh
 from .interp import SV, SB, Panic, Unsupported, Violation
 from .main import Result
 
-PRE = "int a ; const int c = 1 ; bit b ; qubit q ; qubit [ 2 ] r ; duration d = 1 ns ; gate g x { } gate k ( s , t ) x , y { } def f ( int z ) { }"
+PRE = "int a ; const int c = 1 ; bit b ; qubit q ; qubit [ 2 ] r ; duration d = 1 ns ; gate g x { } gate k ( s , t ) x , y { } def f ( int z ) { } const bool j = true ; const float [ 64 ] l = 1.0 ; bool n ;"
 POOL = "acbqrdgkfUu"
 GATES = {"g": (0, 1), "k": (2, 2), "U": (3, 1)}
 QUANTUM = "qr"
@@ -57,7 +57,8 @@ class H(semh.Base):
             _, m = self.task
             body = f"{nm('N', 'f')} ( " + " , ".join(["1"] * m) + " ) ;"
         elif k == "assign":
-            body = f"{nm('X', 'acbd')} = 2 ;"
+            rhs = self.task[1] if len(self.task) > 1 else "2"
+            body = f"{nm('X', 'acbdjln')} = {rhs} ;"
         elif k == "scope":
             _, what, where = self.task
             decl = {"qubit": "qubit w ;", "qreg": "qubit [ 2 ] w ;", "gate": "gate w v { }", "def": "def w ( ) { }"}[what]
@@ -139,9 +140,13 @@ class H(semh.Base):
             return "defcall"
         if k == "assign":
             X = V["X"]
-            P(z3.Implies(X == ord("c"), has("MutateConstError")), "assigning to a const symbol is not reported")
-            P(z3.Implies(X == ord("a"), z3.BoolVal(not errs)), f"assigning to a non-const int gets diagnostics {kinds}")
-            P(z3.Implies(X != ord("c"), z3.Not(has("MutateConstError"))), "MutateConstError for a non-const symbol")
+            rhs = self.task[1] if len(self.task) > 1 else "2"
+            const = isin(X, "cjl")
+            P(z3.Implies(const, has("MutateConstError")), f"assigning `{rhs}` to a const symbol is not reported")
+            P(z3.Implies(z3.Not(const), z3.Not(has("MutateConstError"))), "MutateConstError for a non-const symbol")
+            clean = {"2": "a", "c": "a", "false": "n", "j": "n", "a": "a"}.get(rhs)
+            if clean:
+                P(z3.Implies(X == ord(clean), z3.BoolVal(not errs)), f"assigning `{rhs}` to a non-const variable of its own kind gets diagnostics {kinds}")
             return "assign"
         if k == "scope":
             _, what, where = self.task
@@ -200,7 +205,8 @@ def build_tasks(quick):
             tasks.append(("binop", op, side))
     for m in (1, 2, 3):
         tasks.append(("defcall", m))
-    tasks.append(("assign",))
+    for rhs in ("2", "false", "1.0", "c", "j", "l", "a", "1 ns"):
+        tasks.append(("assign", rhs))
     for what in ("qubit", "qreg", "gate", "def"):
         for where in ("global", "if", "else", "while", "for", "def", "case", "default", "nested"):
             tasks.append(("scope", what, where))
